@@ -232,7 +232,12 @@ func c05Run(in []string) []string {
 				parts = append(parts, strconv.Itoa(id)+"="+get("S")+":"+get("s")+":"+get("b"))
 			}
 			vu.Stat("db_dump")
-			out = "b" + strings.Join(parts, "/")
+			// the BranchesInfo record (table "B", key "c"): RLP bytes as stored
+			bi := "~"
+			if v, err := db.Get([]byte("Bc")); err == nil && v != nil {
+				bi = vu.Hex(v)
+			}
+			out = "b" + strings.Join(parts, "/") + "+B" + bi
 		case "E", "A":
 			if len(op) < 4 {
 				break
